@@ -163,6 +163,7 @@ package coroutines
 //@ ghostdb coroutine
 //@ nopanic C13
 //@ requires c != nil && tags != nil
+//@ ensures linearizes(post_locks(anykey("sweep")) == pre_locks(anykey("sweep")) || post_locks(anykey("sweep")) == spec.TimeoutLocks.locks(pre_locks(anykey("sweep")), anykey("sweep"), T))
 
 //@ func TimeoutPromises$1
 //@ props C01 C04 C05 C08
